@@ -125,7 +125,7 @@ Proof. unfold write_fpg. destruct (memb _ _); reflexivity. Qed.
 
 Lemma step_links_ok c w a : wf w -> links_ok w -> links_ok (fst (step c w a)).
 Proof.
-  intros H L. destruct a as [p|p|o|o ds|g ds|e b|e|e| |k|e]; unfold step.
+  intros H L. destruct a as [p|p|o|o ds|g ds|e b|e|e| |k|e|es]; unfold step.
   - destruct (attachedb w p && kind_eqb (ekind (E w p)) KGroup); [|exact L]. cbn [fst].
     intros a b Hin. simpl in Hin. apply in_app_or in Hin as [Hin|[Hin|[]]].
     + destruct (L a b Hin) as [L1 L2]. simpl. assert (Nat.eqb b (n w) = false) by (apply Nat.eqb_neq; lia). rewrite H0.
@@ -163,6 +163,8 @@ Proof.
       (intros a b Hin; simpl in Hin; rewrite links_fold_del_flat in Hin; simpl;
        rewrite (proj1 (E_fold_del_flat _ w)), (proj2 (E_fold_del_flat _ w)); apply L; exact Hin).
   - destruct (Nat.ltb e (n w)); [|exact L]. destruct (memb e (reg w)); [|exact L]. destruct (memb e (held w)); exact L.
+  - destruct es as [|e0 r]; [exact L|]. destruct (forallb _ (e0 :: r)); [|exact L]. cbn [fst].
+    eapply links_ok_shrink; [apply fold_prc_shrink | exact L].
 Qed.
 
 Lemma reachable_links_ok c : forall h, links_ok (run c init h).
